@@ -81,10 +81,14 @@ def lookup (t : Table) (n : String) (c : Cls) : Option (Nat × Spec) :=
   | some e => if e.prio = 0 then none else some (e.prio, e.spec)
   | none => none
 
+/-- what `current_op/3` shows of a cell (`write_op_functors_to_heap` skips priority 0). -/
+def visible (e : Entry) : Option (Nat × Spec × String) :=
+  if e.prio = 0 then none else some (e.prio, e.spec, e.name)
+
 /-- all solutions of `current_op(P,T,N)` with three unbound arguments, in `IndexMap` order
-    (`get_next_op_db_ref`, branch "priority unbound, name unbound"; priority-0 cells skipped). -/
+    (`get_next_op_db_ref`, branch "priority unbound, name unbound"). -/
 def currentOp (t : Table) : List (Nat × Spec × String) :=
-  t.filterMap (fun e => if e.prio = 0 then none else some (e.prio, e.spec, e.name))
+  t.filterMap visible
 
 /-! ## Arguments of a call -/
 
@@ -219,26 +223,24 @@ def finishBar (t : Table) (P S : Arg) : Table × Option Err :=
 /-- `op/3`, clause by clause, in the order of the code. Result: new table and the error formal
     (`none` = the call succeeded). -/
 def opStepImpl (fx : Fixes) (t : Table) (c : Call) : Table × Option Err :=
-  match c.prio with
-  | .var => (t, some .inst)                                   -- 8.14.3.3 a
-  | P =>
-    match c.spec with
-    | .var => (t, some .inst)                                 -- b
-    | S =>
-      match c.op with
-      | .one .var => (t, some .inst)                          -- c
-      | .one (.atom a) =>
-        if a = "|" then finishBar t P S
-        else
-          match validOp a with                                -- valid_op(Op)
-          | some e => (t, some e)
-          | none => finish fx t P S false [a]
-      | .one x => (t, some (.typeList (.one x)))              -- list_of_op_atoms fails: f
-      | .cons hd tl tail =>
-        match listCheck (hd :: tl) tail with
-        | .error e => (t, some e)
-        | .ok none => (t, some (.typeList (.cons hd tl tail)))
-        | .ok (some names) => finish fx t P S true names
+  if c.prio = .var then (t, some .inst)                        -- 8.14.3.3 a
+  else if c.spec = .var then (t, some .inst)                   -- b
+  else
+    match c.op with
+    | .one .var => (t, some .inst)                             -- c
+    | .one (.atom a) =>
+      if a = "|" then finishBar t c.prio c.spec
+      else
+        match validOp a with                                   -- valid_op(Op)
+        | some e => (t, some e)
+        | none => finish fx t c.prio c.spec false [a]
+    | .one (.int i) => (t, some (.typeList (.one (.int i))))   -- list_of_op_atoms fails: f
+    | .one (.other x) => (t, some (.typeList (.one (.other x))))
+    | .cons hd tl tail =>
+      match listCheck (hd :: tl) tail with
+      | .error e => (t, some e)
+      | .ok none => (t, some (.typeList (.cons hd tl tail)))
+      | .ok (some names) => finish fx t c.prio c.spec true names
 
 /-- the code as it is today. -/
 def asIs : Fixes := ⟨false, false⟩
@@ -265,9 +267,6 @@ def Pat.matches (q : Pat) (x : Nat × Spec × String) : Bool :=
   (match q.s with | some s => decide (s = x.2.1) | none => true) &&
   (match q.n with | some n => decide (n = x.2.2) | none => true)
 
-def visible (e : Entry) : Option (Nat × Spec × String) :=
-  if e.prio = 0 then none else some (e.prio, e.spec, e.name)
-
 /-- `get_next_op_db_ref` followed by `member(op(P,T,N), List)`. `fixed = false` is the code as
     it is: with the priority bound it reads the other two registers as atoms without looking at
     their tags, so an unbound specifier or name makes the lookup fail (modelled as no solution).
@@ -292,6 +291,74 @@ def currentOpQ (fixed : Bool) (t : Table) (q : Pat) : List (Nat × Spec × Strin
         | none => []
       | _, _ => if fixed then t.filterMap visible else []
   sols.filter q.matches
+
+/-! ## Specification vocabulary (used by `Props/C43.lean`) -/
+
+/-- the terms that stand in operator position: the third argument itself, or its elements. -/
+def OpArg.elems : OpArg → List Arg
+  | .one a => [a]
+  | .cons hd tl _ => hd :: tl
+
+def atomsOf : List Arg → Option (List String)
+  | [] => some []
+  | .atom a :: r => (atomsOf r).map (a :: ·)
+  | _ :: _ => none
+
+/-- the names a well-formed third argument (an atom or a proper list of atoms) denotes. -/
+def opNames : OpArg → Option (List String)
+  | .one (.atom a) => some [a]
+  | .one _ => none
+  | .cons hd tl tail => if tail = .atom "[]" then atomsOf (hd :: tl) else none
+
+/-- the update an accepted call performs: every name gets `(p, s)` in class `s.cls`. -/
+def setAll (t : Table) (p : Nat) (s : Spec) (ns : List String) : Table :=
+  ns.foldl (fun t n => set t n p s) t
+
+/-- ISO/IEC 13211-1 8.14.3.3 (with Cor.2): the error conditions of `op/3`. `IsoErr t c e` = the
+    condition of error `e` holds for call `c` in table `t`. No precedence among them is fixed. -/
+inductive IsoErr (t : Table) (c : Call) : Err → Prop
+  | instPrio : c.prio = .var → IsoErr t c .inst                                       -- a
+  | instSpec : c.spec = .var → IsoErr t c .inst                                       -- b
+  | instOp : Arg.var ∈ c.op.elems → IsoErr t c .inst                                  -- c
+  | instTail (hd tl) : c.op = .cons hd tl .var → IsoErr t c .inst                     -- c
+  | typePrio : c.prio ≠ .var → (∀ i, c.prio ≠ .int i) →
+      IsoErr t c (.typeInteger c.prio)                                                -- d
+  | typeSpec : c.spec ≠ .var → (∀ a, c.spec ≠ .atom a) → IsoErr t c (.typeAtom c.spec) -- e
+  | typeList1 (x) : c.op = .one x → x ≠ .var → (∀ a, x ≠ .atom a) →
+      IsoErr t c (.typeList c.op)                                                     -- f
+  | typeList2 (hd tl tail) : c.op = .cons hd tl tail → tail ≠ .var → tail ≠ .atom "[]" →
+      IsoErr t c (.typeList c.op)                                                     -- f
+  | typeElem (hd tl tail x) : c.op = .cons hd tl tail → x ∈ hd :: tl → x ≠ .var →
+      (∀ a, x ≠ .atom a) → IsoErr t c (.typeAtom x)                                   -- g
+  | domPrio (i) : c.prio = .int i → (i < 0 ∨ 1200 < i) → IsoErr t c (.domPriority i)  -- h
+  | domSpec (a) : c.spec = .atom a → Spec.ofAtom? a = none →
+      IsoErr t c (.domSpecifier a)                                                    -- i
+  | comma : Arg.atom "," ∈ c.op.elems → IsoErr t c (.permModify ",")                  -- j, k
+  | nil : Arg.atom "[]" ∈ c.op.elems → IsoErr t c (.permCreate "[]")                  -- Cor.2
+  | curly : Arg.atom "{}" ∈ c.op.elems → IsoErr t c (.permCreate "{}")                -- Cor.2
+  | bar (p s) : Arg.atom "|" ∈ c.op.elems → checkPriority c.prio = .ok p →
+      checkSpec c.spec = .ok s → barOk p s = false → IsoErr t c (.permCreate "|")     -- Cor.2
+  | clash (n p s) : Arg.atom n ∈ c.op.elems → checkPriority c.prio = .ok p → p ≠ 0 →
+      checkSpec c.spec = .ok s → conflict t s n = true → IsoErr t c (.permCreate n)   -- l
+
+/-- no priority-0 bookkeeping cell is a second cell for the same key (`IndexMap` keys are unique). -/
+def wf : Table → Prop
+  | [] => True
+  | e :: r => get r e.name e.spec.cls = none ∧ wf r
+
+/-- the table invariants of the property statement, phrased with the visible table `lookup`. -/
+structure Inv (t : Table) : Prop where
+  /-- keys are unique -/
+  wf : wf t
+  /-- no name is an infix and a postfix operator -/
+  noInfPost : ∀ n, lookup t n .inf = none ∨ lookup t n .post = none
+  /-- priorities are within 1..1200 and stored under the class of their specifier -/
+  range : ∀ n c p s, lookup t n c = some (p, s) → 1 ≤ p ∧ p ≤ 1200 ∧ s.cls = c
+  /-- `[]` and `{}` are not operators -/
+  nilCurly : ∀ c, lookup t "[]" c = none ∧ lookup t "{}" c = none
+  /-- `'|'` is at most an infix operator of priority ≥ 1001 -/
+  bar : lookup t "|" .pre = none ∧ lookup t "|" .post = none ∧
+        ∀ p s, lookup t "|" .inf = some (p, s) → 1001 ≤ p
 
 /-! ## Default table -/
 
